@@ -35,6 +35,10 @@
     `on_variable` carries as value EXACTLY the tokens written between the `=` and the `;`
     (`valueOf vals`: same types and texts, same order, nothing dropped, duplicated or taken from
     the surrounding declaration), for every value of top-level shape of any length.
+  * `C14_default_argument` (`Theorems/ParamForm.lean`): a position end to end through three levels of the recursive
+    core — in a parameter `T ptr-ops name = value` the default is EXACTLY the tokens written
+    between the `=` and the `,` / `)` that ends the parameter, for every value of top-level
+    shape of any length (commas and parentheses inside brackets are part of the value).
 -/
 import CxxModel.Theorems.Stream
 import CxxModel.Theorems.MethodEnd
@@ -42,6 +46,7 @@ import CxxModel.Theorems.EnumList
 import CxxModel.Tables
 import CxxModel.Theorems.TopLevel
 import CxxModel.GenCfg
+import CxxModel.Theorems.ParamForm
 namespace Cxx
 
 theorem C14_balanced_contiguous (env : Env) (F : Nat) (init : List CTok) (w w' : World) (res : List CTok)
@@ -151,6 +156,23 @@ theorem C14_variable_initializer (env : Env) (hc : env.cfg = genLexCfg) (G D : N
       w7.delivered = w.delivered + 1 ∧ w7.anon = w.anon ∧ w7.muted = false ∧ w7.nextId = w.nextId :=
   toplevel_variable_init env (by rw [hc]; exact gen_rules_progress) G D w first pairs ops x eq vals semi d1 b1 b0 bmid bx bq bv b' blk rest hstack hk hmu hfa
     htok hty htv hall hy0 hops hopsv hy ha htx hx hxv hteq heq hyv htl hsemi hs hF hFv
+
+end
+
+section
+open P
+
+theorem C14_default_argument (env : Env) (F D : Nat) (p : PItem) (ty : DType) (hok : p.OK ty)
+    (eq : Tok) (vals : List Tok) (sep : Tok) (w : World) (bmid bq bv b' : Buf)
+    (hy : Yields env.cfg w.buf p.toks bmid) (hte : tokenEofOk env.cfg bmid = .ok (some eq, bq)) (heq : eq.type = "=")
+    (hyv : Yields env.cfg bq vals bv) (htl : TopLevel [",", ")"] (vals.map (·.type)))
+    (htsep : tokenEofOk env.cfg bv = .ok (some sep, b'))
+    (hsep : sep.type = "," ∨ sep.type = ")") (hF : p.pairs.length + p.ops.length + 2 ≤ F + 1) (hFv : vals.length + 1 ≤ F) :
+    ∃ (w' : World) (t' : Tok),
+      interp env (parseParameterStep (F + 1) (core (F + 1) (D + 1 + 1)) none true ")") w =
+        (w', .ok (.mk ty (some p.name.value) (some (valueOf vals)) false, none)) ∧
+      SameButLog w w' ∧ tokenEofOk env.cfg w'.buf = .ok (some t', b') ∧ t'.type = sep.type ∧ t'.value = sep.value :=
+  parameter_default env F D p ty hok eq vals sep w bmid bq bv b' hy hte heq hyv htl htsep hsep hF hFv
 
 end
 
